@@ -610,6 +610,27 @@ func genSpec(r *rand.Rand, runID string, id int, proto string, big, bigResp, res
 	return s
 }
 
+// genRaceSpec is the shape that exposes a scheduling-dependent defect seen with
+// HTTP/1.1 clients: a request body with Content-Length, a backend that answers
+// as soon as it has read it, and a response body long enough to still be in
+// transit when the proxy's outbound writer looks at the inbound body again.
+func genRaceSpec(r *rand.Rand, runID string, id int) *Spec {
+	s := &Spec{ID: id, Proto: "h1", HeadersPad: -1, Tag: fmt.Sprintf("%s-%d", runID, id)}
+	s.Method = pick(r, []string{"POST", "PUT", "PATCH"})
+	s.Target = "/upload/" + randFrom(r, unreserved, 1+r.Intn(8))
+	s.PathKind, s.QueryKind = "plain", "none"
+	s.Authority = fmt.Sprintf("c08-%d.front.example", id%97)
+	s.Headers = [][2]string{{"Accept-Encoding", "identity"}, {"User-Agent", "c08-client/1.0"}, {"Content-Type", "application/octet-stream"}}
+	s.HasBody, s.DeclareCL = true, true
+	s.BodySeed = r.Int63()
+	s.BodyLen = 1 + r.Intn(8192)
+	s.Pieces = cutPieces(r, s.BodyLen, 1+r.Intn(3))
+	s.Plan = PlanSpec{Status: 200, BodySeed: r.Int63(), Headers: [][2]string{{"Content-Type", "application/octet-stream"}}}
+	s.Plan.Chunks = cutPieces(r, 16*1024+r.Intn(112*1024), 1+r.Intn(4))
+	s.Plan.DeclareCL = r.Intn(2) == 0
+	return s
+}
+
 func (s *Spec) shapeKey() string {
 	hop := 0
 	for _, h := range s.Headers {
